@@ -161,38 +161,207 @@ def rule_layout(rep, repo):
     # Tensor1DGrids: kron nesting order must follow the meshgrid('ij') argument order
     t = repo.method("Tensor1DGrids", "__init__")
     n = 0
-    for st in ast.walk(t.node):
-        if isinstance(st, ast.If):
-            meshes = [c for b in st.body for c in ast.walk(b) if isinstance(c, ast.Call) and norm(c.func) == "np.meshgrid"]
-            for branch in (st.body, st.orelse):
-                mesh = [c for b in branch for c in ast.walk(b) if isinstance(c, ast.Call) and norm(c.func) == "np.meshgrid"]
-                kron = [b.value for b in branch if isinstance(b, ast.Assign) and isinstance(b.value, ast.Call)
-                        and norm(b.value.func) == "np.kron"]
-                if not mesh or not kron:
-                    continue
-                n += 1
-                order_pts = [norm(a).replace(".points", "") for a in mesh[0].args]
-                indexing = next((norm(k.value) for k in mesh[0].keywords if k.arg == "indexing"), "'xy'")
+    cons = "cubic.Tensor1DGrids.__init__"
+    a = t.node.args
+    pos = a.args[len(a.args) - len(a.defaults):]
+    opt = [x.arg for x, d in zip(pos, a.defaults) if isinstance(d, ast.Constant) and d.value is None]
+    if not opt:
+        raise AnalysisError("anchor vanished: Tensor1DGrids.__init__ has no optional (None-default) 1-D grid")
+    for absent in (tuple(opt), ()):
+        tc = _TensorCtor(t, set(absent))
+        tc.run(strip_docstring(t.node.body))
+        if tc.super_args is None or len(tc.super_args) < 2:
+            raise AnalysisError("anchor vanished: Tensor1DGrids.__init__ does not call super().__init__(points, weights, ...)")
+        mesh = _find(tc.super_args[0], "mesh")
+        kron = tc.super_args[1]
+        if mesh is None:
+            raise AnalysisError(f"unrecognised idiom: points of Tensor1DGrids are not built from np.meshgrid ({tc.super_args[0]!r:.120})")
+        order_w = _kron_order(kron)
+        if order_w is None:
+            raise AnalysisError(f"unrecognised idiom: weights of Tensor1DGrids are not a Kronecker product of 1-D weights ({kron!r:.120})")
+        order_pts = []
+        for a in mesh[1]:
+            if not (isinstance(a, tuple) and a[0] == "attr" and a[2] == "points" and a[1][0] == "grid"):
+                raise AnalysisError(f"unrecognised idiom: meshgrid argument {a!r:.80}")
+            order_pts.append(a[1][1])
+        n += 1
+        indexing = mesh[2]
+        where = repo.rel("cubic", tc.super_node)
+        if indexing == "'ij'" and order_pts == order_w:
+            rep.ok("tensor-weight-layout", f"{cons}:{len(order_w)}D", where,
+                   f"meshgrid('ij') over {order_pts}, kron over {order_w}")
+        else:
+            rep.violation("tensor-weight-layout", cons, f"{len(order_pts)}D",
+                          f"points enumerate meshgrid({', '.join(order_pts)}, indexing={indexing}) but weights are "
+                          f"kron({', '.join(order_w)}): the product weight of node (i, j[, k]) is attached to another "
+                          f"node", where)
+    rep.floor("tensor-product configurations of Tensor1DGrids", n, 2)
 
-                def flat(k):
-                    out = []
-                    for a in k.args:
-                        if isinstance(a, ast.Call) and norm(a.func) == "np.kron":
-                            out += flat(a)
-                        else:
-                            out.append(norm(a).replace(".weights", ""))
-                    return out
-                order_w = flat(kron[0])
-                cons = "cubic.Tensor1DGrids.__init__"
-                if indexing == "'ij'" and order_pts == order_w:
-                    rep.ok("tensor-weight-layout", f"{cons}:{len(order_w)}D", repo.rel("cubic", kron[0]),
-                           f"meshgrid('ij') over {order_pts}, kron over {order_w}")
+
+def _find(v, tag):
+    if isinstance(v, tuple):
+        if v and v[0] == tag:
+            return v
+        for x in v:
+            r = _find(x, tag)
+            if r is not None:
+                return r
+    elif isinstance(v, list):
+        for x in v:
+            r = _find(x, tag)
+            if r is not None:
+                return r
+    return None
+
+
+def _kron_order(v):
+    """In-order leaves of a nest of np.kron calls (the Kronecker product is associative), as grid names."""
+    if isinstance(v, tuple) and v[0] == "kron":
+        a, b = _kron_order(v[1]), _kron_order(v[2])
+        return None if a is None or b is None else a + b
+    if isinstance(v, tuple) and v[0] == "attr" and v[2] == "weights" and v[1][0] == "grid":
+        return [v[1][1]]
+    return None
+
+
+class _TensorCtor:
+    """Evaluates the constructor of Tensor1DGrids for one configuration of its optional grids
+    (absent = passed as None).  Values: ("grid", name), ("none",), Python lists of values,
+    ("attr", v, name), ("mesh", [args], indexing), ("kron", a, b), ("call", text, [args])."""
+
+    def __init__(self, f, absent):
+        self.env = {}
+        for p in f.params[1:]:
+            self.env[p] = ("none",) if p in absent else ("grid", p)
+        self.super_args = None
+        self.super_node = None
+
+    def fold(self, t):
+        if isinstance(t, ast.UnaryOp) and isinstance(t.op, ast.Not):
+            k = self.fold(t.operand)
+            return None if k is None else not k
+        if isinstance(t, ast.Compare) and len(t.ops) == 1 and isinstance(t.ops[0], (ast.Is, ast.IsNot)) and \
+                isinstance(t.comparators[0], ast.Constant) and t.comparators[0].value is None:
+            v = self.ev(t.left)
+            if v == ("none",) or (isinstance(v, tuple) and v[0] == "grid"):
+                return (v == ("none",)) == isinstance(t.ops[0], ast.Is)
+        if isinstance(t, ast.Compare) and len(t.ops) == 1 and isinstance(t.ops[0], (ast.Eq, ast.NotEq)):
+            a, b = self.ev(t.left), self.ev(t.comparators[0])
+            if isinstance(a, int) and isinstance(b, int):
+                return (a == b) == isinstance(t.ops[0], ast.Eq)
+        if isinstance(t, ast.BoolOp):
+            ks = [self.fold(v) for v in t.values]
+            if isinstance(t.op, ast.And):
+                return False if False in ks else (None if None in ks else True)
+            return True if True in ks else (None if None in ks else False)
+        return None
+
+    def ev(self, e):
+        if isinstance(e, ast.Name):
+            return self.env.get(e.id, ("unknown", e.id))
+        if isinstance(e, ast.Constant):
+            return e.value if isinstance(e.value, int) and not isinstance(e.value, bool) else ("const", repr(e.value))
+        if isinstance(e, (ast.List, ast.Tuple)):
+            out = []
+            for x in e.elts:
+                if isinstance(x, ast.Starred):
+                    v = self.ev(x.value)
+                    if not isinstance(v, list):
+                        return ("unknown", norm(e))
+                    out += v
                 else:
-                    rep.violation("tensor-weight-layout", cons, f"{len(order_w)}D",
-                                  f"points enumerate meshgrid({', '.join(order_pts)}, indexing={indexing}) but weights are "
-                                  f"kron({', '.join(order_w)}): the product weight of node (i, j[, k]) is attached to another "
-                                  f"node", repo.rel("cubic", kron[0]))
-    rep.floor("tensor-product branches of Tensor1DGrids", n, 2)
+                    out.append(self.ev(x))
+            return out
+        if isinstance(e, ast.IfExp):
+            k = self.fold(e.test)
+            if k is None:
+                return ("unknown", norm(e))
+            return self.ev(e.body if k else e.orelse)
+        if isinstance(e, ast.Attribute):
+            return ("attr", self.ev(e.value), e.attr)
+        if isinstance(e, (ast.ListComp, ast.GeneratorExp)) and len(e.generators) == 1 and not e.generators[0].ifs and \
+                isinstance(e.generators[0].target, ast.Name):
+            it = self.ev(e.generators[0].iter)
+            if not isinstance(it, list):
+                return ("unknown", norm(e))
+            saved = dict(self.env)
+            out = []
+            for x in it:
+                self.env[e.generators[0].target.id] = x
+                out.append(self.ev(e.elt))
+            self.env = saved
+            return out
+        if isinstance(e, ast.Subscript):
+            v = self.ev(e.value)
+            if isinstance(v, list):
+                if isinstance(e.slice, ast.Slice):
+                    lo = self.ev(e.slice.lower) if e.slice.lower is not None else None
+                    hi = self.ev(e.slice.upper) if e.slice.upper is not None else None
+                    st = self.ev(e.slice.step) if e.slice.step is not None else None
+                    if all(x is None or isinstance(x, int) for x in (lo, hi, st)) and st != 0:
+                        return v[lo:hi:st]
+                else:
+                    k = self.ev(e.slice)
+                    if isinstance(k, int) and -len(v) <= k < len(v):
+                        return v[k]
+            return ("unknown", norm(e))
+        if isinstance(e, ast.UnaryOp) and isinstance(e.op, ast.USub) and isinstance(self.ev(e.operand), int):
+            return -self.ev(e.operand)
+        if isinstance(e, ast.Call):
+            fn = norm(e.func)
+            args = []
+            for a in e.args:
+                if isinstance(a, ast.Starred):
+                    v = self.ev(a.value)
+                    if not isinstance(v, list):
+                        return ("unknown", norm(e))
+                    args += v
+                else:
+                    args.append(self.ev(a))
+            if fn == "np.meshgrid":
+                return ("mesh", args, next((norm(k.value) for k in e.keywords if k.arg == "indexing"), "'xy'"))
+            if fn == "np.kron" and len(args) == 2:
+                return ("kron", args[0], args[1])
+            if fn == "len" and len(args) == 1 and isinstance(args[0], list):
+                return len(args[0])
+            if fn in ("tuple", "list") and len(args) == 1 and isinstance(args[0], list):
+                return args[0]
+            if fn == "super().__init__":
+                return ("super", args)
+            recv = [self.ev(e.func.value)] if isinstance(e.func, ast.Attribute) else []
+            return ("call", fn, recv + args)
+        return ("unknown", norm(e))
+
+    def run(self, body):
+        for s in body:
+            if isinstance(s, ast.Assign) and len(s.targets) == 1 and isinstance(s.targets[0], ast.Name):
+                self.env[s.targets[0].id] = self.ev(s.value)
+            elif isinstance(s, ast.Assign) and len(s.targets) == 1 and isinstance(s.targets[0], (ast.Tuple, ast.List)):
+                v = self.ev(s.value)
+                for i, t in enumerate(s.targets[0].elts):
+                    if isinstance(t, ast.Name):
+                        self.env[t.id] = v[i] if isinstance(v, list) and len(v) == len(s.targets[0].elts) else ("unknown", norm(s.value))
+            elif isinstance(s, ast.If):
+                k = self.fold(s.test)
+                if k is None:
+                    if s.body and isinstance(s.body[-1], ast.Raise) and not s.orelse:
+                        continue  # argument validation
+                    raise AnalysisError(f"unrecognised idiom: Tensor1DGrids.__init__ branches on `{norm(s.test)[:60]}`")
+                self.run(s.body if k else s.orelse)
+            elif isinstance(s, ast.For) and isinstance(s.target, ast.Name):
+                it = self.ev(s.iter)
+                if not isinstance(it, list):
+                    raise AnalysisError(f"unrecognised idiom: Tensor1DGrids.__init__ loops over `{norm(s.iter)[:60]}`")
+                for x in it:
+                    self.env[s.target.id] = x
+                    self.run(s.body)
+            elif isinstance(s, ast.Expr) and isinstance(s.value, ast.Call):
+                v = self.ev(s.value)
+                if isinstance(v, tuple) and v[0] == "super":
+                    self.super_args = v[1]
+                    self.super_node = s
+            elif isinstance(s, (ast.Raise, ast.Return)):
+                return
 
 
 def rule_index_maps(rep, repo):
